@@ -49,6 +49,7 @@ ASSUMPTIONS = [
 ]
 SHRINK_KEY = "ops"
 STORM_FINDING = "C08-arp-request-loop"
+FOREIGN_IP_FINDING = "C08-host-accepts-foreign-ip"
 
 # ---------------------------------------------------------------------------------------------------------------------
 # (a) route selection
@@ -425,6 +426,8 @@ def run_topo(case: Dict) -> CaseResult:
     res.label(f"family:{family}", f"hosts:{len(ref.hosts)}", f"l3:{len(ref.l3)}", *sorted(labels))
     if case.get("avoid_storm"):
         res.label(f"excluded:{STORM_FINDING}")
+    if case.get("avoid_nh_host"):
+        res.label(f"excluded:{FOREIGN_IP_FINDING}")
     for m in spec.get("muts", []):
         res.label(f"mut:{m}")
     if rec.ttl_drops:
@@ -518,5 +521,8 @@ def worker(ctx: Ctx):
     # segment shared with another router, and with >2 hosts on a routed LAN the rewritten flood copies corrupt switch tables
     # and duplicate replies under signatures too generic to list (see c08_gen.py and findings/C08-NOTES.md)
     avoid = bool(ctx.excl.get(STORM_FINDING))
+    # likewise for "hosts accept frames for foreign IP addresses": no routes whose next hop is a host while it is open
+    avoid_nh = bool(ctx.excl.get(FOREIGN_IP_FINDING))
     for sub, (family, (nq, nt)) in enumerate(FAMILY_PLAN.items(), start=2):
-        hyp_run(ctx, gen.topo_case(family, avoid_storm=avoid), run_case, nq if quick else nt, sub=sub)
+        hyp_run(ctx, gen.topo_case(family, avoid_storm=avoid, avoid_nh_host=avoid_nh), run_case, nq if quick else nt,
+                sub=sub)
